@@ -74,7 +74,7 @@ def judge_state(st, ctx):
             free = {str(s) for s in c.to_sympy(substitute=False).free_symbols} - {"f"}
             if not free <= want_syms:
                 fail("sympy:unknown-symbol", f"free symbols {sorted(free - want_syms)} name no parameter (expected a subset of {sorted(want_syms)})")
-            elif not ctx.get("containers") and free != want_syms:
+            elif free != want_syms:
                 fail("sympy:parameter-without-symbol", f"parameters without a variable: {sorted(want_syms - free)}")
         except Exception as e:  # noqa: BLE001
             fail(f"sympy:raises:{type(e).__name__}", str(e)[:160])
@@ -123,6 +123,77 @@ def judge_state(st, ctx):
     return res, 1, case
 
 
+def judge_tlm_exports(chunk):
+    """The Tlm sub-circuit lattice of specs/Elements.tla: exports of R-Tlm{...} for every configuration that can be simulated."""
+    ensure_repo_on_path()
+    import warnings
+    import numpy as np
+    from pyimpspec import Circuit, Resistor
+    from pyimpspec.circuit.registry import get_elements
+    from pyimpspec.circuit.series import Series
+    from pyimpspec.exceptions import ImpedanceError
+    from .c02 import tlm_sub
+    warnings.simplefilter("ignore")
+    Tlm = get_elements(private=True)["Tlm"]
+    roles = (("X_1", "x1"), ("X_2", "x2"), ("Z_A", "za"), ("Z_B", "zb"), ("Zeta", "ze"))
+    out = []
+    for cfg, expect in chunk:
+        mentions = set(expect[1])
+        subs = {k: tlm_sub(cfg["fin"], cfg[m]) for k, m in roles}
+        e = Tlm(**subs)
+        c = Circuit(Series([Resistor(), e]))
+        case = {"config": {m: cfg[m] for _, m in roles}, "finite": cfg["fin"], "circuit": c.to_string()}
+        res = []
+        try:
+            with np.errstate(all="ignore"):
+                c.get_impedances(np.array([1e3, 1.0, 1e-2]))
+        except (ImpedanceError, NotImplementedError):
+            out.append((res, None))        # not simulatable: outside the quantifier
+            continue
+
+        def fail(sig, detail):
+            res.append(("violation", "tlm:" + sig, case, f"{case['circuit']}: {detail}"))
+
+        ids = c.generate_element_identifiers(running=True)
+        want = {f"R_{ids[c.get_elements(recursive=False)[0]]}", f"L_{ids[e]}"}
+        for role, con in e.get_subcircuits().items():
+            if con is None or role not in mentions:
+                continue
+            for el in con.get_elements(recursive=True):
+                want |= {f"{k}_{ids[el]}" for k in el.get_values()}
+        try:
+            free = {str(x) for x in c.to_sympy(substitute=False).free_symbols} - {"f"}
+            if not free <= want | {f"{k}_{i}" for el, i in ids.items() for k in el.get_values()}:
+                fail("sympy:unknown-symbol", f"free symbols {sorted(free)} include names of no parameter")
+            elif want - free:
+                fail("sympy:parameter-without-symbol", f"parameters without a variable: {sorted(want - free)} (the model expects the sub-circuits {sorted(mentions)} to be mentioned)")
+        except Exception as ex:  # noqa: BLE001
+            fail(f"sympy:raises:{type(ex).__name__}", str(ex)[:160])
+        try:
+            sub = {str(x) for x in c.to_sympy(substitute=True).free_symbols}
+            if not sub <= {"f"}:
+                fail("sympy-substituted:free-variables", f"after substitution the expression still has {sorted(sub - {'f'})}")
+        except Exception as ex:  # noqa: BLE001
+            fail(f"sympy-substituted:raises:{type(ex).__name__}", str(ex)[:160])
+        try:
+            tex = c.to_latex()
+            if not isinstance(tex, str) or not tex.startswith("Z ="):
+                fail("latex:format", repr(tex)[:80])
+        except Exception as ex:  # noqa: BLE001
+            fail(f"latex:raises:{type(ex).__name__}", str(ex)[:160])
+        try:
+            tikz = c.to_circuitikz()
+            comps = re.findall(r"to\[(\w+)=\$(.+?)\$\]", tikz)
+            if tikz.count("\\begin{circuitikz}") != 1 or tikz.count("\\end{circuitikz}") != 1:
+                fail("circuitikz:unbalanced", tikz[:120])
+            elif [x[1] for x in comps] != ["R_{\\rm 1}", "Tlm_{\\rm 1}"]:
+                fail("circuitikz:component-name", f"components {[x[1] for x in comps]}; the circuit names them R_1 and Tlm_1 (a container counts as one)")
+        except Exception as ex:  # noqa: BLE001
+            fail(f"circuitikz:raises:{type(ex).__name__}", str(ex)[:160])
+        out.append((res, case))
+    return out
+
+
 def selftest() -> int:
     ensure_repo_on_path()
     res = run_tlc("Circuit", cfg_text(2, 1, ["R", "C"]), dump=True)
@@ -163,8 +234,30 @@ def run(tier: str, seed: int) -> int:
                 replay_states(v, res.dump_path, judge_state, {"drawing": drawing, "containers": containers})
         finally:
             cleanup(res)
+    # the sub-circuit lattice of the general transmission line model (specs/Elements.tla, Part = "tlm")
+    from .c02 import cfg_text as elements_cfg
+    from .common import parallel_map
+    res = run_tlc("Elements", elements_cfg("tlm"), dump=True)
+    try:
+        v.add_tlc("Tlm sub-circuit lattice (243 configurations x 3 finite sub-circuits)", res)
+        if res.violated:
+            v.model_violation("Elements:tlm", res, "the dispatch tables of the transmission line model disagree in the model")
+        items = [(dict(st["cfg"]), [st["expect"][0], sorted(st["expect"][1])]) for st in tlaval.iter_dump_states(res.dump_path)]
+    finally:
+        cleanup(res)
+    items.sort(key=lambda it: sorted(it[0].items()))
+    if tier == "quick":
+        items = [it for it in items if it[0]["fin"] == "RC"]
+    for res_list, case in parallel_map(judge_tlm_exports, items, procs=14, chunk=6):
+        v.replayed += 1
+        if case is not None:
+            v.nontrivial += 1
+            v.sample(case, limit=8)
+        for kind, sig, cs, detail in res_list:
+            v.report(sig, cs, detail)
     v.evaluations = v.replayed
     v.extra["rule"] = ("every circuit grown by the builder of specs/Circuit.tla (per plan: leaf kinds, degenerate shapes on/off); "
                        "non-trivial = complete and simulatable circuits; all four exports are produced for each")
-    v.assumptions += ["for container elements only 'every free symbol names a parameter' is required (a sub-circuit configuration can make a parameter drop out of the equation)"]
+    v.assumptions += ["Tlm with both phases finite and both boundaries short: the interfacial impedance cancels from the impedance itself "
+                      "(eq. 16 collapses), so its parameters have no variable - named as a deviation in Elements.tla (TlmMentions), not judged"]
     return v.finish()
